@@ -5359,6 +5359,11 @@ class PyCdlib:
         if boot_dirrecord.inode is None:
             raise pycdlibexception.PyCdlibInternalError('Tried to add an empty boot dirrecord inode to the El Torito boot catalog')
 
+        if boot_dirrecord.get_data_length() == 0:
+            # An empty file occupies no extent; the entry would point at
+            # whatever comes next on the ISO (or behind its end).
+            raise pycdlibexception.PyCdlibInvalidInput('An El Torito boot file must not be empty')
+
         if boot_info_table:
             orig_len = boot_dirrecord.get_data_length()
             bi_table = eltorito.EltoritoBootInfoTable()
